@@ -27,7 +27,7 @@ ASSUMPTIONS = [
     'collapse labels are strings (they become ids)',
 ]
 ANCHORS = ['Table.partition', 'Table.collapse', 'Table._conv_to_self_type']
-REQUIRED = ['labeller_reads_the_table', 'collapse_f_forms', 'partition_calls', 'partition_dict_id2grp', 'partition_dict_grp2ids',
+REQUIRED = ['one_to_many_incomplete_pathways', 'incomplete_pathway_refused_when_strict', 'labeller_reads_the_table', 'collapse_f_forms', 'partition_calls', 'partition_dict_id2grp', 'partition_dict_grp2ids',
             'partition_ignore_none', 'partition_remove_empty',
             'partition_falsy_labels', 'collapse_one_to_one',
             'collapse_norm', 'collapse_min_group_size',
@@ -382,6 +382,26 @@ def run_one_to_many(ctx, r, spec, t, axis, desc):
         calls.append(str(i))
         for n, g in enumerate(assign[str(i)]):
             yield (['path', g, str(n)], g)
+    incomplete = None
+    if r.random() < .2:
+        # pathways kept as lists in a lookup, some of them incomplete (too
+        # short to name their group); the labeller is an iterator that goes
+        # on after a failed step (map), the documented `strict` decides:
+        # refuse, or leave the incomplete ones out
+        incomplete = {}
+        for i in ids:
+            raw = [['path', g] for g in assign[i]]
+            for _ in range(r.choice([0, 1, 1, 2])):
+                raw.insert(r.randrange(len(raw) + 1), ['short'])
+            incomplete[i] = raw
+        if not any(len(p) < 2 for raw in incomplete.values() for p in raw):
+            incomplete[ids[0]].insert(0, ['short'])
+
+        def f(i, m):                                    # noqa: F811
+            calls.append(str(i))
+            return map(lambda p: (p, p[1]), incomplete[str(i)])
+        desc['pathway_lists'] = incomplete
+        ctx.count('one_to_many_incomplete_pathways')
     f = probing(ctx, r, spec, t, axis, f, desc)
     key = r.choice(['Path', 'KEGG_Pathways'])
     desc.update(op='collapse-one-to-many', mode=mode, assign=assign,
@@ -389,8 +409,20 @@ def run_one_to_many(ctx, r, spec, t, axis, desc):
     # `strict` only concerns labellers that fail part-way; with a labeller
     # that always answers it must not change anything
     strict = r.choice([None, None, True, False])
+    if incomplete is not None:
+        strict = r.choice([False, False, True])
     kw = {} if strict is None else {'strict': strict}
     desc['strict'] = strict
+    if incomplete is not None and strict:
+        try:
+            t.collapse(f, norm=False, one_to_many=True,
+                       one_to_many_mode=mode, one_to_many_md_key=key,
+                       axis=axis, **kw)
+        except IndexError:
+            ctx.count('incomplete_pathway_refused_when_strict')
+            return True
+        raise Violation('C11/incomplete-pathway-accepted', 'strict=True and '
+                        'an incomplete pathway; case=%r' % (desc,))
     res = t.collapse(f, norm=False, one_to_many=True, one_to_many_mode=mode,
                      one_to_many_md_key=key, axis=axis, **kw)
     ctx.count('collapse_one_to_many_' + mode)
